@@ -273,9 +273,13 @@ def execute(scn, keep_log=False, hook=None):
 
     # ---- (3) abort with reason 3 when a stack stops waiting for CTS / for connection-mode data
     def aborts_from(n):
+        """Reasons of the connection aborts stack n sent *to its peer* (own address as source, the peer's as destination)."""
         out = []
+        me, peer = (O_ADDR, R_ADDR) if n == 'O' else (R_ADDR, O_ADDR)
         for (_t, cid, d) in tx_log[n]:
             i = rc.Id(cid)
+            if n in ('O', 'R') and (i.sa, i.ps) != (me, peer):
+                continue
             if not fd and i.pf == rc.PF_TP_CM and d[0] == rc.ABORT:
                 out.append(d[1])
             if fd and i.pf == rc.PF_FD_TP_CM and len(d) >= 12 and (d[0] & 0xF) == rc.FD_ABORT:
